@@ -4,6 +4,7 @@ package main
 
 import (
 	"fmt"
+	"go/constant"
 	"go/token"
 	"go/types"
 	"strings"
@@ -1617,6 +1618,77 @@ func c05PhaseStateAndRetryBuf(c *Ctx) {
 	ok := unlockD != nil && resetD != nil && instrReaches(unlockD, resetD) && !instrReaches(resetD, unlockD)
 	c.Check(ok, R, "order:the shared Retry buffer is reset before the mutex is released", c.P.Pos(g.Pos()),
 		"deferred calls run last-in-first-out: `defer Unlock` must be registered before `defer Reset`, otherwise a concurrent caller's input is wiped by the late Reset and its integrity tag is wrong")
+}
+
+// C09.12: the scrambler is finished (scramble switched off, the ClientHello dropped from the write buffer) only when
+// every deferred cut it has seen valid in that call has been invalidated, i.e. handed out completely. Decided on the
+// flag-sensitive path search: from the "this cut is still valid" edge, no path reaches the finishing stores without
+// passing the store that invalidates a cut.
+func c09CutsDrainedBeforeFinish(c *Ctx) {
+	const R = "C09.12"
+	f := c.fn("", "initialCryptoStream", "PopCryptoFrame")
+	cutStart := c.fld("", "clientHelloCut", "start")
+	scr := c.fld("", "initialCryptoStream", "scramble")
+	wb := c.fld("", "baseCryptoStream", "writeBuf")
+	isInvalid := func(v ssa.Value) bool {
+		k, ok := stripConv(v).(*ssa.Const)
+		if !ok || k.Value == nil {
+			return false
+		}
+		n, ok2 := constant.Int64Val(k.Value)
+		return ok2 && n == -1
+	}
+	var starts []*ssa.BasicBlock
+	for _, g := range helperRegion(f) {
+		for _, b := range g.Blocks {
+			if len(b.Instrs) == 0 {
+				continue
+			}
+			ifi, ok := b.Instrs[len(b.Instrs)-1].(*ssa.If)
+			if !ok {
+				continue
+			}
+			bo, ok := ifi.Cond.(*ssa.BinOp)
+			if !ok || (bo.Op != token.EQL && bo.Op != token.NEQ) {
+				continue
+			}
+			if !((loadsPath(bo.X, cutStart) && isInvalid(bo.Y)) || (loadsPath(bo.Y, cutStart) && isInvalid(bo.X))) {
+				continue
+			}
+			if bo.Op == token.EQL {
+				starts = append(starts, b.Succs[1])
+			} else {
+				starts = append(starts, b.Succs[0])
+			}
+		}
+	}
+	c.Floor(R, "tests of a cut against InvalidByteCount in PopCryptoFrame", len(starts), 2)
+	finish := func(in ssa.Instruction) bool {
+		st, ok := in.(*ssa.Store)
+		if !ok {
+			return false
+		}
+		switch fieldOfAddress(st.Addr) {
+		case scr:
+			k, ok := st.Val.(*ssa.Const)
+			return ok && k.Value != nil && !constant.BoolVal(k.Value)
+		case wb:
+			_, isSlice := st.Val.(*ssa.Slice)
+			return isSlice
+		}
+		return false
+	}
+	invalidate := func(in ssa.Instruction) bool {
+		st, ok := in.(*ssa.Store)
+		return ok && fieldOfAddress(st.Addr) == cutStart && isInvalid(st.Val)
+	}
+	c.Floor(R, "finishing stores in PopCryptoFrame", len(findInstrs(f, finish)), 2)
+	c.Floor(R, "stores that invalidate a cut in PopCryptoFrame", len(findInstrs(f, invalidate)), 1)
+	if len(starts) == 0 {
+		return
+	}
+	c.cut(R, "finish-only-when-drained:"+funcName(f), &Cut{Fn: f, StartBlocks: starts, Target: finish, Barrier: invalidate, TrackFlags: true},
+		"scrambling is switched off and the ClientHello dropped from the write buffer only when every deferred cut seen valid has been handed out completely (otherwise its bytes are never sent: a hole in the CRYPTO stream)")
 }
 
 // C09.10: what planInitialFlight stores for sending is exactly what validateInitialFlight accepted.
